@@ -6,7 +6,7 @@ for patch in "$@"; do
   S=/var/tmp/bipverif-ben-$$; rm -rf $S; mkdir -p $S; rsync -a --exclude .git /repo/ $S/
   (cd $S && patch -p1 -s < $patch) || { echo "$(basename $patch): PATCH DOES NOT APPLY"; rm -rf $S; continue; }
   (cd $S && go build ./... && go build -tags verif ./... && go test -count=1 . >/dev/null 2>&1) || { echo "$(basename $patch): DOES NOT BUILD/TEST"; rm -rf $S; continue; }
-  out=$(VERIF_REPO=$S VERIF_WORK_SUFFIX=.ben$$ /verif/bin/bipverif matrix 2>&1)
+  out=$(VERIF_REPO=$S VERIF_WORK_SUFFIX=.ben$$ ${BIPVERIF:-/verif/bin/bipverif} matrix 2>&1)
   echo "$(basename $patch): $(echo "$out" | grep MATRIX-SUMMARY)"
   echo "$out" | grep '^MATRIX C' | cut -c1-230 | head -6
   rm -rf $S /verif/work/*.ben$$
